@@ -276,7 +276,12 @@ class ParallelChannelPulseTemplate(PulseTemplate):
             # key of a MappedScope, so with all time dependent channels dropped an extra parameter called t would
             # turn an unneeded missing parameter into an error
             parameters = {name: value for name, value in parameters.items() if name != 't'}
-        return {channel_mapping[name]: value.evaluate_symbolic(parameters) if 't' in value.variables else value.evaluate_in_scope(parameters)
+        def time_dependent(value: ExpressionScalar) -> Union[numbers.Real, ExpressionScalar]:
+            value = value.evaluate_symbolic(parameters)
+            # the time dependence can vanish for the given parameters ('a*t' with a = 0, 'a*t + b' with a = 0): the
+            # value is a plain number then (ParallelChannelTransformation accepts numbers and expressions of t only)
+            return value if value.variables else value.evaluate_numeric()
+        return {channel_mapping[name]: time_dependent(value) if 't' in value.variables else value.evaluate_in_scope(parameters)
                 for name, value in kept.items()}
 
     def _internal_create_program(self, *,
